@@ -234,7 +234,8 @@ def run(rep, tier, rng):
     import warnings
     for al in algs.ALGS:
         for strict in (True, False):
-            for populate, keys in [(pp, kk) for pp in (None, False, True) for kk in (None, [], (), ["B"], ["A"], ("Cc", "A"))]:
+            for populate, keys, via in [(pp, kk, vv) for pp in (None, False, True) for kk in (None, [], (), ["B"], ["A"], ("Cc", "A"))
+                                        for vv in ("transform_to", "pointer.translate", "spa.translate")]:
                 A = algs.alg_obj(al)
                 voc = spa.Vocabulary(d, strict=strict, algebra=A, pointer_gen=np.random.RandomState(1))
                 voc.add("A", np.array(script_vec(d, 0), float))
@@ -244,23 +245,27 @@ def run(rep, tier, rng):
                 before = (list(voc.keys()), np.array(voc.vectors, copy=True))
                 with warnings.catch_warnings():
                     warnings.simplefilter("ignore")
-                    o = c.outcome(lambda: src.transform_to(voc, populate=populate) if keys is None else src.transform_to(voc, populate=populate, keys=keys))
+                    kwk = {} if keys is None else {"keys": keys}
+                    o = c.outcome({"transform_to": lambda: src.transform_to(voc, populate=populate, **kwk),
+                                   "pointer.translate": lambda: src["A"].translate(voc, populate=populate, **kwk),
+                                   "spa.translate": lambda: spa.translate(src["B"], voc, populate=populate, **kwk)}[via])
                 after = (list(voc.keys()), np.asarray(voc.vectors))
                 want_keys = sorted(set(["A"]) | set(["A", "B", "Cc"] if keys is None else keys))
-                rep.case(("as-target", al, strict, populate, None if keys is None else tuple(keys)))
+                rep.case(("as-target", al, strict, populate, None if keys is None else tuple(keys), via))
                 rep.count("op_transform_to_into")
                 unchanged = after[0] == before[0] and np.array_equal(after[1], before[1])
                 prefix_ok = after[0][:len(before[0])] == before[0] and np.array_equal(after[1][:len(before[0])], before[1])
                 if populate is not True and not unchanged:
-                    rep.violation(f"transform_to(target, populate={populate}, keys={keys!r}) changed the target vocabulary: keys {before[0]} -> {after[0]} ({al}, strict={strict})",
+                    rep.violation(f"{via}(target, populate={populate}, keys={keys!r}) changed the target vocabulary: keys {before[0]} -> {after[0]} ({al}, strict={strict})",
                                   {"case": {"alg": al, "strict": strict, "populate": populate, "keys": None if keys is None else list(keys)},
                                    "python": "import numpy as np, nengo_spa as spa\nt = spa.Vocabulary(4); t.populate('A')\ns = spa.Vocabulary(4); s.populate('A; B')\n"
                                              f"import warnings; warnings.simplefilter('ignore'); s.transform_to(t, populate={populate})\nassert list(t.keys()) == ['A'], list(t.keys())\n"})
                 if populate is True and not (prefix_ok and sorted(after[0]) == want_keys and len(voc) == len(after[1]) == len(want_keys)):
-                    rep.violation(f"transform_to(target, populate=True, keys={keys!r}) did not append exactly the missing requested keys: {before[0]} -> {after[0]}",
-                                  {"case": {"alg": al, "strict": strict, "keys": None if keys is None else list(keys)},
+                    rep.violation(f"{via}(target, populate=True, keys={keys!r}) did not append exactly the missing requested keys: {before[0]} -> {after[0]}",
+                                  {"case": {"alg": al, "strict": strict, "keys": None if keys is None else list(keys), "via": via},
                                    "python": "import numpy as np, nengo_spa as spa\nt = spa.Vocabulary(4); t.populate('A')\ns = spa.Vocabulary(4); s.populate('A; B; Cc')\n"
-                                             f"s.transform_to(t, populate=True, keys={None if keys is None else list(keys)!r})\nassert sorted(t.keys()) == {want_keys!r}, list(t.keys())\n"})
+                                             + {"transform_to": "s.transform_to(t", "pointer.translate": "s['A'].translate(t", "spa.translate": "spa.translate(s['B'], t"}[via] +
+                                             f", populate=True, keys={None if keys is None else list(keys)!r})\nassert sorted(t.keys()) == {want_keys!r}, list(t.keys())\n"})
 
     # ---- the vocabulary as the *source* of transform_to / create_subset: never changed -----------------------------
     for al in algs.ALGS:
